@@ -59,17 +59,18 @@ def run(hist):
             elif o == "call":
                 n0 = len(seen)
                 try:
+                    kw = {} if ev.get("a", "-") == "-" else {"ck": ev["a"]}
                     if m == "s":
-                        op.sync_detailed(client=c)
+                        op.sync_detailed(client=c, **kw)
                     else:
-                        await op.asyncio_detailed(client=c)
+                        await op.asyncio_detailed(client=c, **kw)
                     if len(seen) != n0 + 1:
                         last = {"res": "requests:" + str(len(seen) - n0)}
                     else:
                         r = seen[-1]
                         cookies = dict(p.strip().split("=", 1) for p in r.headers.get("cookie", "").split(";") if "=" in p)
                         t = r.extensions.get("timeout", {}).get("read")
-                        last = {"res": "sent", "hdrs": {n: r.headers.get(n, "-") for n in ("h1", "h2")}, "cks": {n: cookies.get(n, "-") for n in ("h1", "h2")},
+                        last = {"res": "sent", "hdrs": {n: r.headers.get(n, "-") for n in ("h1", "h2")}, "cks": {n: cookies.get(n, "-") for n in ("h1", "h2")}, "arg": cookies.get("ck", "-"),
                                 "auth": r.headers.get("authorization") == "Bearer tok", "authraw": r.headers.get("authorization"),
                                 "time": {None: "t0", 1.0: "t1", 2.0: "t2", 5.0: "tu"}.get(t, str(t))}
                 except RuntimeError as e:
